@@ -46,6 +46,8 @@ package decor
 //@ func initWC
 //@   props    C07 C12 C02
 //@   ensures  result.fill != nil && ((result.C & DSyncWidth) != 0 ==> result.wsync != nil)
+//@   loop 1   invariant (rangeindex < 0 ==> wc.W == 0 && wc.C == 0) && (rangeindex >= 0 ==> wc.W == wcc[rangeindex].W && wc.C == wcc[rangeindex].C)
+//@   ensures  last: (len(wcc) == 0 ==> result.W == 0 && result.C == 0) && (len(wcc) > 0 ==> result.W == wcc[len(wcc) - 1].W && result.C == wcc[len(wcc) - 1].C)
 
 //@ func (WC).Sync
 //@   props    C12 C02
@@ -157,6 +159,11 @@ package decor
 //@   requires d != nil
 //@   modifies pkgstate("decor"), sent("chan int"), recvd("chan int")
 //@   ensures  honest: result1 >= 0 && dw(result0) == result1
+//@   ensures  produced: called("decor_movingAverageETA.producer") == old(called("decor_movingAverageETA.producer")) + 1 && calledWith("(WC).Format", 1) == returned("decor_movingAverageETA.producer", 0)
+//@              && result0 == returned("(WC).Format", 0) && result1 == returned("(WC).Format", 1)
+//@   ensures  estimate: old(d.normalizer) == nil ==> called("decor.TimeNormalizer.Normalize") == old(called("decor.TimeNormalizer.Normalize")) && (MinInt64 <= trunc(round(returned("ewma.MovingAverage.Value", 0))) && trunc(round(returned("ewma.MovingAverage.Value", 0))) <= MaxInt64 ==> calledWith("decor_movingAverageETA.producer", 0) == wrap64(wrap64(s.Total - s.Current) * trunc(round(returned("ewma.MovingAverage.Value", 0)))))
+//@   ensures  normalized: old(d.normalizer) != nil ==> called("decor.TimeNormalizer.Normalize") == old(called("decor.TimeNormalizer.Normalize")) + 1 && (MinInt64 <= trunc(round(returned("ewma.MovingAverage.Value", 0))) && trunc(round(returned("ewma.MovingAverage.Value", 0))) <= MaxInt64 ==> calledWith("decor.TimeNormalizer.Normalize", 1) == wrap64(wrap64(s.Total - s.Current) * trunc(round(returned("ewma.MovingAverage.Value", 0)))))
+//@              && calledWith("decor_movingAverageETA.producer", 0) == returned("decor.TimeNormalizer.Normalize", 0)
 
 //@ func (*averageETA).Decor
 //@   props    C07 C12 C20
@@ -164,12 +171,23 @@ package decor
 //@   requires d != nil
 //@   modifies pkgstate("decor"), sent("chan int"), recvd("chan int")
 //@   ensures  honest: result1 >= 0 && dw(result0) == result1
+//@   ensures  produced: called("decor_averageETA.producer") == old(called("decor_averageETA.producer")) + 1 && calledWith("(WC).Format", 1) == returned("decor_averageETA.producer", 0)
+//@              && result0 == returned("(WC).Format", 0) && result1 == returned("(WC).Format", 1)
+//@   ensures  unknown: s.Current == 0 ==> calledWith("decor_averageETA.producer", 0) == 0 && called("decor.TimeNormalizer.Normalize") == old(called("decor.TimeNormalizer.Normalize"))
+//@   ensures  estimate: s.Current != 0 && old(d.normalizer) == nil ==> calledWith("time.Since", 0) == old(d.start)
+//@              && (MinInt64 <= trunc(round(fdiv(i2f(returned("time.Since", 0)), i2f(s.Current)))) && trunc(round(fdiv(i2f(returned("time.Since", 0)), i2f(s.Current)))) <= MaxInt64 ==> calledWith("decor_averageETA.producer", 0) == wrap64(wrap64(s.Total - s.Current) * trunc(round(fdiv(i2f(returned("time.Since", 0)), i2f(s.Current))))))
+//@   ensures  normalized: s.Current != 0 && old(d.normalizer) != nil ==> called("decor.TimeNormalizer.Normalize") == old(called("decor.TimeNormalizer.Normalize")) + 1 && calledWith("time.Since", 0) == old(d.start)
+//@              && (MinInt64 <= trunc(round(fdiv(i2f(returned("time.Since", 0)), i2f(s.Current)))) && trunc(round(fdiv(i2f(returned("time.Since", 0)), i2f(s.Current)))) <= MaxInt64 ==> calledWith("decor.TimeNormalizer.Normalize", 1) == wrap64(wrap64(s.Total - s.Current) * trunc(round(fdiv(i2f(returned("time.Since", 0)), i2f(s.Current))))))
+//@              && calledWith("decor_averageETA.producer", 0) == returned("decor.TimeNormalizer.Normalize", 0)
 
 //@ func (*movingAverageSpeed).Decor
 //@   props    C07 C12 C20
 //@   requires d != nil
 //@   modifies pkgstate("decor"), sent("chan int"), recvd("chan int")
 //@   ensures  honest: result1 >= 0 && dw(result0) == result1
+//@   ensures  produced: called("decor_movingAverageSpeed.producer") == old(called("decor_movingAverageSpeed.producer")) + 1 && calledWith("(WC).Format", 1) == returned("decor_movingAverageSpeed.producer", 0)
+//@              && result0 == returned("(WC).Format", 0) && result1 == returned("(WC).Format", 1)
+//@   ensures  rate: calledWith("decor_movingAverageSpeed.producer", 0) == ite(returned("ewma.MovingAverage.Value", 0) == real(0), real(0), fdiv(real(1000000000), returned("ewma.MovingAverage.Value", 0)))
 
 //@ func (*averageSpeed).Decor
 //@   props    C07 C12 C20
@@ -177,6 +195,9 @@ package decor
 //@   modifies pkgstate("decor"), sent("chan int"), recvd("chan int")
 //@   ensures  honest: result1 >= 0 && dw(result0) == result1
 //@   ensures  frozen: s.Completed ==> d.msg == old(d.msg) && calledWith("(WC).Format", 1) == old(d.msg)
+//@   ensures  formatted: result0 == returned("(WC).Format", 0) && result1 == returned("(WC).Format", 1) && calledWith("(WC).Format", 1) == d.msg
+//@   ensures  rate: !s.Completed ==> called("decor_averageSpeed.producer") == old(called("decor_averageSpeed.producer")) + 1 && d.msg == returned("decor_averageSpeed.producer", 0) && calledWith("time.Since", 0) == old(d.start)
+//@              && calledWith("decor_averageSpeed.producer", 0) == fmul(fdiv(i2f(s.Current), i2f(returned("time.Since", 0))), real(1000000000))
 
 //@ func (metaWrapper).Decor
 //@   props    C07 C12
@@ -224,6 +245,7 @@ package decor
 //@   requires fn != nil
 //@   ensures  result != nil
 //@   ensures  built: hasType(result, "any") && unboxAs(result, "any").fn == fn
+//@   ensures  config: calledWith("initWC", 0) == wcc && unboxAs(result, "any").WC == returned("initWC", 0)
 
 
 // wrapper constructors: a nil decorator stays nil; otherwise the result is the wrapper around
@@ -254,14 +276,27 @@ package decor
 //@   ensures  none: decorator == nil ==> result == nil
 //@   ensures  wraps: decorator != nil ==> hasType(result, "onAbortMetaWrapper") && unboxAs(result, "onAbortMetaWrapper").Decorator == decorator && unboxAs(result, "onAbortMetaWrapper").fn == fn
 //@ func MovingAverageETA
-//@   props    C07 C02
+//@   props    C07 C02 C20 C12
+//@   ensures  config: calledWith("initWC", 0) == wcc && unboxAs(result, "*movingAverageETA").WC == returned("initWC", 0)
+//@   ensures  built: hasType(result, "*movingAverageETA") && fresh(result) && unboxAs(result, "*movingAverageETA").producer == returned("chooseTimeProducer", 0) && calledWith("chooseTimeProducer", 0) == in(style)
+//@              && unboxAs(result, "*movingAverageETA").normalizer == in(normalizer) && unboxAs(result, "*movingAverageETA").zDur == 0
+//@   ensures  average: (in(average) != nil ==> unboxAs(result, "*movingAverageETA").average == in(average)) && (in(average) == nil ==> unboxAs(result, "*movingAverageETA").average == returned("NewMedian", 0))
 //@ func NewAverageETA
-//@   props    C07 C02
+//@   props    C07 C02 C20 C12
+//@   ensures  config: calledWith("initWC", 0) == wcc && unboxAs(result, "*averageETA").WC == returned("initWC", 0)
+//@   ensures  built: hasType(result, "*averageETA") && fresh(result) && unboxAs(result, "*averageETA").producer == returned("chooseTimeProducer", 0) && calledWith("chooseTimeProducer", 0) == in(style)
+//@              && unboxAs(result, "*averageETA").normalizer == in(normalizer) && unboxAs(result, "*averageETA").start == in(start)
 //@ func MovingAverageSpeed
-//@   props    C07 C02
+//@   props    C07 C02 C20 C12
 //@   requires average != nil
+//@   ensures  config: calledWith("initWC", 0) == wcc && unboxAs(result, "*movingAverageSpeed").WC == returned("initWC", 0)
+//@   ensures  built: hasType(result, "*movingAverageSpeed") && fresh(result) && unboxAs(result, "*movingAverageSpeed").producer == returned("chooseSpeedProducer", 0) && calledWith("chooseSpeedProducer", 0) == in(unit) && calledWith("chooseSpeedProducer", 1) == in(format)
+//@              && unboxAs(result, "*movingAverageSpeed").average == in(average) && unboxAs(result, "*movingAverageSpeed").zDur == 0
 //@ func NewAverageSpeed
-//@   props    C07 C02
+//@   props    C07 C02 C20 C12
+//@   ensures  config: calledWith("initWC", 0) == wcc && unboxAs(result, "*averageSpeed").WC == returned("initWC", 0)
+//@   ensures  built: hasType(result, "*averageSpeed") && fresh(result) && unboxAs(result, "*averageSpeed").producer == returned("chooseSpeedProducer", 0) && calledWith("chooseSpeedProducer", 0) == in(unit) && calledWith("chooseSpeedProducer", 1) == in(format)
+//@              && unboxAs(result, "*averageSpeed").start == in(start) && unboxAs(result, "*averageSpeed").msg == ""
 //@ func chooseTimeProducer
 //@   props    C07 C02 C20
 //@   ensures  result != nil
@@ -428,9 +463,12 @@ package decor
 //@ func (*medianWindow).Less
 //@   props    C02 C20
 //@   requires s != nil && 0 <= i && i < 3 && 0 <= j && j < 3
+//@   modifies nothing
+//@   ensures  order: result == (s[i] < s[j])
 //@ func (*medianWindow).Swap
 //@   props    C02 C20
 //@   requires s != nil && 0 <= i && i < 3 && 0 <= j && j < 3
+//@   ensures  exchanged: s[i] == old(s[j]) && s[j] == old(s[i]) && forall(k, 0, 3, k != i && k != j ==> s[k] == old(s[k]))
 
 // the thread-safe moving average serialises every access to the wrapped average (C10: EWMA
 // decorators are updated from goroutines of their own while the bar is rendered)
@@ -668,3 +706,82 @@ package decor
 //@   props    C02 C07
 //@   wraps    uint
 //@   requires len(frames) > 0
+
+// shortcuts of the estimator constructors: their own arguments, the current time, the library's
+// default average (C20: which estimator a bar ends up with)
+//@ func EwmaETA
+//@   props    C20 C02 C12 C07
+//@   ensures  forwarded: called("EwmaNormalizedETA") == old(called("EwmaNormalizedETA")) + 1 && calledWith("EwmaNormalizedETA", 0) == style && calledWith("EwmaNormalizedETA", 1) == age
+//@              && calledWith("EwmaNormalizedETA", 2) == nil && calledWith("EwmaNormalizedETA", 3) == wcc && result == returned("EwmaNormalizedETA", 0)
+//@ func EwmaNormalizedETA
+//@   props    C20 C02 C12 C07
+//@   ensures  forwarded: called("MovingAverageETA") == old(called("MovingAverageETA")) + 1 && calledWith("MovingAverageETA", 0) == style && calledWith("MovingAverageETA", 2) == normalizer
+//@              && calledWith("MovingAverageETA", 3) == wcc && result == returned("MovingAverageETA", 0)
+//@   ensures  average: called("github.com/VividCortex/ewma.NewMovingAverage") == old(called("github.com/VividCortex/ewma.NewMovingAverage")) + 1 && calledWith("MovingAverageETA", 1) == returned("github.com/VividCortex/ewma.NewMovingAverage", 0)
+//@              && (age == real(0) ==> len(calledWith("github.com/VividCortex/ewma.NewMovingAverage", 0)) == 0) && (age != real(0) ==> len(calledWith("github.com/VividCortex/ewma.NewMovingAverage", 0)) == 1 && calledWith("github.com/VividCortex/ewma.NewMovingAverage", 0)[0] == age)
+//@ func AverageETA
+//@   props    C20 C02 C12 C07
+//@   ensures  now: called("NewAverageETA") == old(called("NewAverageETA")) + 1 && calledWith("NewAverageETA", 0) == style && calledWith("NewAverageETA", 1) == returned("time.Now", 0)
+//@              && calledWith("NewAverageETA", 2) == nil && calledWith("NewAverageETA", 3) == wcc && result == returned("NewAverageETA", 0)
+//@ func EwmaSpeed
+//@   props    C20 C02 C12 C07
+//@   ensures  forwarded: called("MovingAverageSpeed") == old(called("MovingAverageSpeed")) + 1 && calledWith("MovingAverageSpeed", 0) == unit && calledWith("MovingAverageSpeed", 1) == format
+//@              && calledWith("MovingAverageSpeed", 3) == wcc && result == returned("MovingAverageSpeed", 0)
+//@   ensures  average: called("github.com/VividCortex/ewma.NewMovingAverage") == old(called("github.com/VividCortex/ewma.NewMovingAverage")) + 1 && calledWith("MovingAverageSpeed", 2) == returned("github.com/VividCortex/ewma.NewMovingAverage", 0)
+//@              && (age == real(0) ==> len(calledWith("github.com/VividCortex/ewma.NewMovingAverage", 0)) == 0) && (age != real(0) ==> len(calledWith("github.com/VividCortex/ewma.NewMovingAverage", 0)) == 1 && calledWith("github.com/VividCortex/ewma.NewMovingAverage", 0)[0] == age)
+//@ func AverageSpeed
+//@   props    C20 C02 C12 C07
+//@   ensures  now: called("NewAverageSpeed") == old(called("NewAverageSpeed")) + 1 && calledWith("NewAverageSpeed", 0) == unit && calledWith("NewAverageSpeed", 1) == format
+//@              && calledWith("NewAverageSpeed", 2) == returned("time.Now", 0) && calledWith("NewAverageSpeed", 3) == wcc && result == returned("NewAverageSpeed", 0)
+//@ func (*averageETA).AverageAdjust
+//@   props    C20 C02
+//@   requires d != nil
+//@   modifies d.start
+//@   ensures  adjusted: d.start == start
+//@ func (*averageSpeed).AverageAdjust
+//@   props    C20 C02
+//@   requires d != nil
+//@   modifies d.start
+//@   ensures  adjusted: d.start == start
+//@ func FmtAsSpeed
+//@   props    C20 C02
+//@   ensures  wrapped: hasType(result, "*speedFormatter") && fresh(result) && unboxAs(result, "*speedFormatter").Formatter == input
+
+// time normalizers: the estimate is passed through whenever it is below a minute or the
+// interval/tolerance rule says so; otherwise the previous answer is counted down by the time
+// since the last call and never falls to zero or below
+//@ func FixedIntervalTimeNormalizer
+//@   props    C20 C02
+//@   ensures  made: hasType(result, "TimeNormalizerFunc") && fnof(unboxAs(result, "TimeNormalizerFunc")) == fn("FixedIntervalTimeNormalizer$1") && bound(unboxAs(result, "TimeNormalizerFunc"), "updInterval") == updInterval
+//@ func FixedIntervalTimeNormalizer$1
+//@   props    C20 C02
+//@   noovf
+//@   ensures  reset: old(count) == 0 || remaining < 60000000000 ==> result == remaining && count == updInterval && normalized == remaining
+//@   ensures  tick: !(old(count) == 0 || remaining < 60000000000) ==> (old(count) > MinInt64 ==> count == old(count) - 1) && calledWith("time.Since", 0) == old(lastCall) && result == ite(normalized > 0, normalized, remaining)
+//@              && (old(normalized) - returned("time.Since", 0) >= MinInt64 ==> normalized == old(normalized) - returned("time.Since", 0))
+//@   ensures  stamped: lastCall == returned("time.Now", 0)
+//@ func MaxTolerateTimeNormalizer
+//@   props    C20 C02
+//@   ensures  made: hasType(result, "TimeNormalizerFunc") && fnof(unboxAs(result, "TimeNormalizerFunc")) == fn("MaxTolerateTimeNormalizer$1") && bound(unboxAs(result, "TimeNormalizerFunc"), "maxTolerate") == maxTolerate
+//@ func MaxTolerateTimeNormalizer$1
+//@   props    C20 C02
+//@   noovf
+//@   ensures  reset: MinInt64 <= old(normalized) - remaining && old(normalized) - remaining <= MaxInt64 && (old(normalized) - remaining <= 0 || old(normalized) - remaining > maxTolerate || remaining < 60000000000) ==> result == remaining && normalized == remaining
+//@   ensures  tick: MinInt64 <= old(normalized) - remaining && old(normalized) - remaining <= MaxInt64 && !(old(normalized) - remaining <= 0 || old(normalized) - remaining > maxTolerate || remaining < 60000000000)
+//@              ==> calledWith("time.Since", 0) == old(lastCall) && result == ite(normalized > 0, normalized, remaining)
+//@                  && (old(normalized) - returned("time.Since", 0) >= MinInt64 ==> normalized == old(normalized) - returned("time.Since", 0))
+//@   ensures  stamped: lastCall == returned("time.Now", 0)
+
+// unit names (generated by stringer): the name of each of the five units, which is what Format appends
+//@ func (SizeB1024).String
+//@   props    C20 C02
+//@   modifies nothing
+//@   ensures  names: (i == 1 ==> result == "b") && (i == 1024 ==> result == "KiB") && (i == 1048576 ==> result == "MiB") && (i == 1073741824 ==> result == "GiB") && (i == 1099511627776 ==> result == "TiB")
+//@ func (SizeB1000).String
+//@   props    C20 C02
+//@   modifies nothing
+//@   ensures  names: (i == 1 ==> result == "b") && (i == 1000 ==> result == "KB") && (i == 1000000 ==> result == "MB") && (i == 1000000000 ==> result == "GB") && (i == 1000000000000 ==> result == "TB")
+//@ func (*medianWindow).Len
+//@   props    C20 C02
+//@   modifies nothing
+//@   ensures  three: result == 3
